@@ -89,10 +89,11 @@ def frag_body(rng, depth):
 def frag_tree(rng, depth=0):
     """a random statement list of the fragment of Model/Fragment.v:
     ('s',) | ('a',) | ('b', body) | ('r', body) | ('t', body, fin) | ('x', body, exc) | ('i', tbody) | ('e', tbody, tbody) | ('w', tbody)
+    | ('c', [tbody...], None | else-body)
     with tbody = ('s',) | ('a',) | ('b', body)"""
     out = []
     for _ in range(rng.randrange(0, 5 if depth < 4 else 2)):
-        c = rng.randrange(11)
+        c = rng.randrange(13)
         if c == 0 and depth < 6: out.append(('b', frag_tree(rng, depth + 1)))
         elif c == 1 and depth < 6: out.append(('r', frag_tree(rng, depth + 1)))
         elif c == 2 and depth < 6: out.append(('t', frag_tree(rng, depth + 1), frag_tree(rng, depth + 1)))
@@ -101,6 +102,7 @@ def frag_tree(rng, depth=0):
         elif c == 5: out.append(('e', frag_body(rng, depth), frag_body(rng, depth)))
         elif c == 6: out.append(('w', frag_body(rng, depth)))
         elif c == 7 and depth < 6: out.append(('x', frag_tree(rng, depth + 1), frag_tree(rng, depth + 1)))
+        elif c == 8 and depth < 6: out.append(('c', [frag_body(rng, depth + 1) for _ in range(rng.randrange(0, 4))], None if rng.randrange(2) else frag_tree(rng, depth + 1)))
         else: out.append(('s',))
     return out
 def frag_body_text(b, rng, ind):
@@ -122,6 +124,11 @@ def frag_text(tree, rng, ind=1):
         elif t[0] == 'i': parts.append(pad + "if Cond then" + sp() + frag_body_text(t[1], rng, ind) + rng.choice([";", " ;"]))
         elif t[0] == 'e': parts.append(pad + "if Cond then" + sp() + frag_body_text(t[1], rng, ind) + sp() + "else" + sp()
                            + frag_body_text(t[2], rng, ind) + ";")
+        elif t[0] == 'c':
+            txt = pad + "case Sel of" + sp()
+            for b in t[1]: txt += pad + rng.choice(["A", "B1"]) + rng.choice([":", " :", ": "]) + sp() + frag_body_text(b, rng, ind + 1) + ";" + sp()
+            if t[2] is not None: txt += pad + "else" + sp() + frag_text(t[2], rng, ind + 1) + sp()
+            parts.append(txt + pad + "end;")
         else: parts.append(pad + "while Cond do" + sp() + frag_body_text(t[1], rng, ind) + ";")
     return rng.choice(["\n", " ", "\n\n"]).join(parts)
 def frag_expected(tree, d, k, out, par=None):
@@ -153,6 +160,22 @@ def frag_expected(tree, d, k, out, par=None):
         elif t[0] in ('i', 'w'):
             h = len(out); e = k + 3 + body_len(t[1])
             out.append((lv(d), par, [k, k + 1, k + 2])); body(t[1], (h, k + 2), k + 3, e); k = e + 1
+        elif t[0] == 'c':
+            # the child lines of an arm come after the line that follows the arm line
+            out.append((lv(d), par, [k, k + 1, k + 2])); k += 3; pending = None
+            for b in t[1]:
+                idx = len(out); out.append((lv(d + 1), par, [k, k + 1]))
+                if pending: body(*pending)
+                e = k + 2 + body_len(b); pending = (b, (idx, k + 1), k + 2, e); k = e + 1
+            if t[2] is None:
+                out.append((lv(d), par, [k, k + 1]))
+                if pending: body(*pending)
+                k += 2
+            else:
+                out.append((lv(d), par, [k]))
+                if pending: body(*pending)
+                k = frag_expected(t[2], d + 1, k + 1, out, par)
+                out.append((lv(d), par, [k, k + 1])); k += 2
         else:
             h = len(out); el = k + 3 + body_len(t[1]); e = el + 1 + body_len(t[2])
             out.append((lv(d), par, [k, k + 1, k + 2, el])); body(t[1], (h, k + 2), k + 3, None); body(t[2], (h, el), el + 1, e); k = e + 1
@@ -167,6 +190,7 @@ def frag_len(tree):
         elif t[0] in ('t', 'x'): n += 4 + frag_len(t[1]) + frag_len(t[2])
         elif t[0] in ('i', 'w'): n += 4 + bl(t[1])
         elif t[0] == 'e': n += 5 + bl(t[1]) + bl(t[2])
+        elif t[0] == 'c': n += 5 + sum(3 + bl(b) for b in t[1]) + (0 if t[2] is None else 1 + frag_len(t[2]))
     return n
 def frag_program(rng):
     tree = frag_tree(rng)
